@@ -68,6 +68,16 @@ def population(rng):
     # a sighting must never count as a relationship
     sight = {"type": "sighting", "spec_version": "2.1", "id": g.new_id("sighting"), "created": "2019-01-01T00:00:00.000Z",
              "modified": "2019-01-01T00:00:00.000Z", "sighting_of_ref": nodes[0]["id"]}
+    if rng.random() < 0.5:
+        # an identifier written with upper-case hexadecimal digits (legal), the only one of its type: wherever it is referred to as well
+        o_up = rng.choice(nodes)
+        old_id = o_up["id"]
+        new_id = old_id.split("--", 1)[0] + "--" + old_id.split("--", 1)[1].upper()
+        if new_id != old_id:
+            for o_ in idents + nodes + rels + [sight]:
+                for k_, v_ in list(o_.items()):
+                    if v_ == old_id:
+                        o_[k_] = new_id
     versions = []
     for o in idents + nodes + rels + [sight]:
         base = tsor.text_us(o["modified"])
@@ -299,6 +309,41 @@ def wl_partition(ctx, rng, i):
                     ctx.violation("navigation-raised", "composite query with attached filter raised %s" % type(e).__name__, dict(c2, exception=repr(e), attached=fdesc(f)))
                 finally:
                     cds.filters.remove(to_lib(f))
+        # a member with a filter of its own under a composite with another: the member's answers satisfy both, the other members' the
+        # composite's -- whatever kind of source the member is
+        if nmem >= 1:
+            try:
+                own, shared = gen_filter(rng, union), gen_filter(rng, union)
+                chosen = rng.randrange(nmem)
+                exp_items = {}
+                for m in range(nmem):
+                    flt = [shared, own] if m == chosen else [shared]
+                    for x in evaluate(flt, contents[m].items, TS_PROPS):
+                        exp_items[key(x)] = x
+                cds = stix2.CompositeDataSource()
+                cds.add_data_sources([members[m][1].source for m in range(nmem)])
+                cds.filters.add(to_lib(shared))
+                members[chosen][1].source.filters.add(to_lib(own))
+                try:
+                    with warnings.catch_warnings():
+                        warnings.simplefilter("ignore")
+                        res = cds.query()
+                    ctx.count("member_own_filter_cases")
+                    judge_set(ctx, "CompositeDataSource(filter) over a %s member with its own filter" % members[chosen][0], res, list(exp_items.values()),
+                              dict(case, composite_filter=fdesc(shared), member_filter=fdesc(own), member=chosen, member_kind=members[chosen][0]),
+                              mech_hint="member-with-own-filter-ignores-composite-filter")
+                    for sid in rng.sample(union.ids(), min(3, len(union.ids()))):
+                        got_av = {key(norm(x)) for x in cds.all_versions(sid)}
+                        exp_av = {k_ for k_, x in exp_items.items() if x["id"] == sid}
+                        ctx.ev()
+                        if got_av != exp_av:
+                            ctx.violation("member-with-own-filter-ignores-composite-filter", "composite (filter %s) over a %s member with own filter %s: all_versions(%s) gave %d, expected %d" % (
+                                fdesc(shared), members[chosen][0], fdesc(own), sid, len(got_av), len(exp_av)), dict(case, id=sid, member_kind=members[chosen][0]))
+                            break
+                finally:
+                    members[chosen][1].source.filters.remove(to_lib(own))
+            except Unjudged:
+                pass
         # membership history: members detached and re-attached (also twice, also while absent); the composite answers as the
         # union of whatever is attached *now*
         if nmem >= 2:
